@@ -272,6 +272,12 @@ def runCalls (schema : Option (RMsg → Bool)) : TState → List (OrderView × A
 def mCancelReq : String := "F"
 def mReplaceReq : String := "G"
 
+/-- `if self.schema: self.schema.validate(m)` as the last step -/
+def schemaGate (schema : Option (RMsg → Bool)) (m : RMsg) : Except Refusal RMsg :=
+  match schema with
+  | some ok => if ok m then .ok m else .error .schema
+  | none => .ok m
+
 /-- `fix_cxlrep_reject_msg` (l.255-291): the two `cxl_req[…]` reads come first (TagNotFoundError), the
 message-type assertion after the first four tags were set. -/
 def cxlReject (schema : Option (RMsg → Bool)) (req : AsyncFix.Session.Msg) (ordStatus : String) :
@@ -280,13 +286,10 @@ def cxlReject (schema : Option (RMsg → Bool)) (req : AsyncFix.Session.Msg) (or
   | some clord, some orig =>
     if req.mtype != mCancelReq && req.mtype != mReplaceReq then .error (.assertion .cxlReqType)
     else
-      let m : RMsg :=
+      schemaGate schema
         { mtype := "9"
           tags := [(37, .c 0), (11, .s clord), (41, .s orig), (39, .s ordStatus),
                    (434, .s (if req.mtype == mCancelReq then "1" else "2"))] }
-      match schema with
-      | some ok => if ok m then .ok m else .error .schema
-      | none => .ok m
   | _, _ => .error .tagNotFound
 
 /-! ### cancel / replace requests (the order object builds them; the helper asserts and registers) -/
@@ -295,44 +298,56 @@ def cxlReject (schema : Option (RMsg → Bool)) (req : AsyncFix.Session.Msg) (or
 def canRequest (status kind : String) : Bool :=
   changeStatus AsyncFix.Generated.OrderTable.spec status kind "0" (if kind = "F" then "6" else "E") false != .none
 
+/-- the tail both request helpers share: optional validation, then registration under the NEW ClOrdID.
+The order is already mutated and is NOT registered when the schema refuses the request. -/
+def reqFinish (schema : Option (RMsg → Bool)) (st : TState) (o1 : OrderView) (m : RMsg) (nc : String) :
+    TState × OrderView × Except Refusal RMsg :=
+  match schema with
+  | some ok =>
+    if ok m then ({ st with registered := nc :: st.registered }, o1, .ok m) else (st, o1, .error .schema)
+  | none => ({ st with registered := nc :: st.registered }, o1, .ok m)
+
+def cxlMsg (o : OrderView) (nextClord time : String) : RMsg :=
+  { mtype := "F"
+    tags := [(11, .s nextClord), (38, .q o.qty), (41, .s o.clordId), (55, .s o.ticker), (54, .s o.side),
+             (60, .s time)] }
+
 /-- `fix_cxl_request` (l.219-230) with `cancel_req` (order_single.py l.140-163) inlined.  `nextClord` is
 what `clord_next()` returns, `time` the TransactTime text.  Result: tester state, the (mutated) order,
-outcome.  The order is mutated and NOT registered when the schema refuses the request. -/
+outcome. -/
 def cxlRequest (schema : Option (RMsg → Bool)) (st : TState) (o : OrderView) (nextClord time : String) :
     TState × OrderView × Except Refusal RMsg :=
   if !canRequest o.status "F" then (st, o, .error (.assertion .cannotCancel))
   else if truthy o.origClordId then (st, o, .error (.assertion .origSet))
   else
-    let o1 := { o with origClordId := some o.clordId, clordId := nextClord, status := "6" }
-    let m : RMsg :=
-      { mtype := "F"
-        tags := [(11, .s nextClord), (38, .q o.qty), (41, .s o.clordId), (55, .s o.ticker), (54, .s o.side),
-                 (60, .s time)] }
-    match schema with
-    | some ok =>
-      if ok m then ({ st with registered := nextClord :: st.registered }, o1, .ok m) else (st, o1, .error .schema)
-    | none => ({ st with registered := nextClord :: st.registered }, o1, .ok m)
+    reqFinish schema st { o with origClordId := some o.clordId, clordId := nextClord, status := "6" }
+      (cxlMsg o nextClord time) nextClord
+
+/-- `replace_req`: the price / quantity actually requested (`nan`, an unchanged value and a zero quantity
+fall back to the order's) -/
+def repPrice (o : OrderView) : Option Num → Num
+  | some p => if p.e = o.price.e then o.price else p
+  | none => o.price
+
+def repQty (o : OrderView) : Option Num → Num
+  | some q => if q.e = o.qty.e || q.e = 0 then o.qty else q
+  | none => o.qty
+
+def repMsg (o : OrderView) (p q : Num) (nextClord time : String) : RMsg :=
+  { mtype := "G"
+    tags := [(11, .s nextClord), (41, .s o.clordId), (40, .s o.ordType), (55, .s o.ticker),
+             (44, .q p), (38, .q q), (54, .s o.side), (60, .s time)] }
 
 /-- `fix_rep_request` (l.232-253) with `replace_req` (order_single.py l.165-204) inlined; `price` / `qty`
 `none` = `nan`. -/
 def repRequest (schema : Option (RMsg → Bool)) (st : TState) (o : OrderView) (price qty : Option Num)
     (nextClord time : String) : TState × OrderView × Except Refusal RMsg :=
   if !canRequest o.status "G" then (st, o, .error (.assertion .cannotReplace))
+  else if (repPrice o price).e = o.price.e && (repQty o qty).e = o.qty.e then (st, o, .error .fixError)
+  else if truthy o.origClordId then (st, o, .error (.assertion .origSet))
   else
-    let p := match price with | some p => if p.e = o.price.e then o.price else p | none => o.price
-    let q := match qty with | some q => if q.e = o.qty.e || q.e = 0 then o.qty else q | none => o.qty
-    if p.e = o.price.e && q.e = o.qty.e then (st, o, .error .fixError)
-    else if truthy o.origClordId then (st, o, .error (.assertion .origSet))
-    else
-      let o1 := { o with origClordId := some o.clordId, clordId := nextClord, status := "E" }
-      let m : RMsg :=
-        { mtype := "G"
-          tags := [(11, .s nextClord), (41, .s o.clordId), (40, .s o.ordType), (55, .s o.ticker),
-                   (44, .q p), (38, .q q), (54, .s o.side), (60, .s time)] }
-      match schema with
-      | some ok =>
-        if ok m then ({ st with registered := nextClord :: st.registered }, o1, .ok m) else (st, o1, .error .schema)
-      | none => ({ st with registered := nextClord :: st.registered }, o1, .ok m)
+    reqFinish schema st { o with origClordId := some o.clordId, clordId := nextClord, status := "E" }
+      (repMsg o (repPrice o price) (repQty o qty) nextClord time) nextClord
 
 /-! ### session message factories (`msg_*`, l.423-514): plain string messages -/
 
